@@ -178,6 +178,11 @@ def oracle(run: runner.Run, oc: Outcome) -> None:
                         t_due = max(t_due, t_on + PAUSE_SLACK + float(backoff or 0.0))
                 if t_stop is not None and flag_at <= t_stop <= t_due + ESCALATION_SLACK:
                     t_due = max(t_due, t_stop + float(backoff or 0.0))
+                # ... and so does the disappearance of the object (the re-check of the per-object stopping meets a 404;
+                # the DELETED event hands the daemon over to a stopper of its own, whose stages start then)
+                for s_ in steps.get((opid, uid), []):
+                    if s_.etype == 'DELETED' and s_.t1 is not None and flag_at <= s_.t0 <= t_due + ESCALATION_SLACK:
+                        t_due = max(t_due, s_.t1 + float(backoff or 0.0))
                 t_seen_cancel = extra.get('first_cancel_at') if mode == 'ignore' else (c.t1 if c.outcome == 'cancelled' else None)
                 gone = min([x for x in (op.t_killed, op.exit[0] if op.exit else None) if x is not None], default=t_end)
                 alive_to = min(c.t1 if c.t1 is not None else t_end, gone, t_end)
